@@ -42,27 +42,41 @@ def generic_replay(pid, mod, res, data):
 OPT_PASS = {'C05', 'C08', 'C09', 'C10', 'C11', 'C12', 'C13', 'C14', 'C16', 'C17', 'C18'}
 
 
-def optimized_pass(pid, tier, res):
+# ... and with warnings turned into errors once the library and its dependencies are imported
+# (`warnings.simplefilter('error')`, pytest's `filterwarnings = error`): a warning issued inside a try/except of the
+# library, or by a deprecated spelling, then becomes an exception of another class.
+WARN_PASS = {'C05', 'C08', 'C09', 'C10', 'C11', 'C12', 'C13', 'C14', 'C16', 'C17', 'C18'}
+
+
+def child_pass(pid, tier, res, key, what, argv_extra, env_extra):
     import subprocess
     import time
     t0 = time.time()
-    p = subprocess.run([sys.executable, '-O', os.path.abspath(__file__), pid, '--tier', tier],
-                       env=dict(os.environ, VERIF_CHILD='1'), stdout=subprocess.PIPE, stderr=subprocess.STDOUT, text=True)
+    p = subprocess.run([sys.executable] + argv_extra + [os.path.abspath(__file__), pid, '--tier', tier],
+                       env=dict(os.environ, VERIF_CHILD='1', **env_extra), stdout=subprocess.PIPE, stderr=subprocess.STDOUT, text=True)
     lines = p.stdout.splitlines()
     n = 0
     for i, l in enumerate(lines):
         if l.startswith('VIOLATION'):
             n += 1
-            what = lines[i + 1].strip() if i + 1 < len(lines) else ''
+            w = lines[i + 1].strip() if i + 1 < len(lines) else ''
             path = l.split('replay=')[1].split()[0]
-            res.violation('when the interpreter runs with -O (python -O / PYTHONOPTIMIZE=1): ' + what,
-                          {'replay_of_the_run_under_O': path, 'history': 'run the same check with python -O'},
+            res.violation('%s: %s' % (what, w), {'replay_of_that_run': path, 'history': what},
                           no_input=l.rstrip().endswith('no-failing-input-found'))
     if p.returncode not in (0, 1):
-        raise common.HarnessError('the repetition under python -O ended with exit %d: %s' % (p.returncode, p.stdout[-400:]))
-    res.coverage['repeated_in_full_under_python_O'] = True
-    res.coverage['violations_only_under_python_O'] = n
-    res.coverage['wall_s_under_python_O'] = round(time.time() - t0, 1)
+        raise common.HarnessError('the repetition (%s) ended with exit %d: %s' % (what, p.returncode, p.stdout[-600:]))
+    res.coverage['repeated_in_full_' + key] = True
+    res.coverage['violations_only_' + key] = n
+    res.coverage['wall_s_' + key] = round(time.time() - t0, 1)
+
+
+def optimized_pass(pid, tier, res):
+    child_pass(pid, tier, res, 'under_python_O', 'when the interpreter runs with -O (python -O / PYTHONOPTIMIZE=1)', ['-O'], {})
+
+
+def warnings_pass(pid, tier, res):
+    child_pass(pid, tier, res, 'with_warnings_as_errors',
+               "when warnings are errors (warnings.simplefilter('error') after importing the package)", [], {'VERIF_WARN_ERROR': '1'})
 
 
 def main():
@@ -88,6 +102,15 @@ def main():
     res = common.Result(pid, tier)
     try:
         mod = importlib.import_module('checks.' + pid.lower())
+        if os.environ.get('VERIF_WARN_ERROR'):
+            # build and extraction first (they may warn), import the library and what it depends on, then: errors
+            import warnings
+            common.ensure_built()
+            import lark  # noqa: F401
+            import ast  # noqa: F401
+            for m in ('', '.PL', '.CTL', '.LTL', '.CTLS', '.BDD', '.kripke', '.graph', '.parser'):
+                importlib.import_module('pyModelChecking' + m)
+            warnings.simplefilter('error')
         if replay:
             with open(replay) as f:
                 data = json.load(f)
@@ -96,6 +119,8 @@ def main():
         mod.run(res)
         if pid in OPT_PASS and sys.flags.optimize == 0 and not os.environ.get('VERIF_CHILD'):
             optimized_pass(pid, tier, res)
+        if pid in WARN_PASS and not os.environ.get('VERIF_CHILD'):
+            warnings_pass(pid, tier, res)
         rc = res.finish()
     except common.HarnessError as e:
         print('HARNESS-ERROR property=%s %s' % (pid, e))
